@@ -15,8 +15,11 @@
    [loud]                                 the failure kinds of the property text (transport error, non-2xx with empty /
        non-JSON / errors-only body, empty body, non-JSON, truncated, `NaN`, errors without data,
        `data: null`), and the `_entities` count faults for batch fetches;
-   [sub_b a b]                            a equals b except for absent object members and nulls. *)
-From Gv Require Import lib.Bytes lib.Json C02.Model C02.Spec C07.Model C07.Spec
+   [sub_b a b]                            a equals b except for absent object members and nulls;
+   [roots_are_objects]                    the data member of a root answer is an object;
+   [run_v0]                               the same run with the loader's mergeResult BEFORE the three repairs
+       (work/c07_fix_*.patch; ModelPreFix.v): the `_refuted` theorems are historical, about that function. *)
+From Gv Require Import lib.Bytes lib.Json C02.Model C02.Spec C07.Model C07.ModelPreFix C07.Spec
      C07.ProofsErrors C07.ProofsMono C07.ProofsJson C07.ProofsUnaff C07.ProofsExamples.
 From Coq Require Import String.
 Open Scope N_scope.
@@ -27,7 +30,7 @@ Open Scope string_scope.
 Theorem c07_monotone :
   forall (answer : N -> bytes -> json * list json) (root_answer : N -> json * list json) (kind_of : N -> fkind)
          (F : N -> option fault) (t : ftree),
-    (forall id k, F id = Some k -> loud (kind_of id) k = true) ->
+    (forall id k, F id = Some k -> loud (kind_of id) k = true) -> roots_are_objects root_answer ->
     fplan_wf kind_of t = true -> consistent answer root_answer kind_of t = true ->
     sub_b (ls_data (run answer root_answer kind_of F t)) (ls_data (run answer root_answer kind_of no_faults t)) = true.
 Proof. exact monotone_proof. Qed.
@@ -38,7 +41,7 @@ Print Assumptions c07_monotone.
 Theorem c07_unaffected_identical :
   forall (answer : N -> bytes -> json * list json) (root_answer : N -> json * list json) (kind_of : N -> fkind)
          (F : N -> option fault) (t : ftree),
-    (forall id k, F id = Some k -> loud (kind_of id) k = true) ->
+    (forall id k, F id = Some k -> loud (kind_of id) k = true) -> roots_are_objects root_answer ->
     fplan_wf kind_of t = true -> consistent answer root_answer kind_of t = true ->
     forall l v, get_loc l (ls_data (run answer root_answer kind_of F t)) = Some v -> is_atom v = true ->
     get_loc l (ls_data (run answer root_answer kind_of no_faults t)) = Some v.
@@ -51,13 +54,15 @@ Print Assumptions c07_unaffected_identical.
    faulty run keeps: the data of that run is contained in the data of the faulty run -- which is
    contained in the fault-free data (c07_monotone), where every scalar is the fault-free scalar
    (c07_unaffected_identical).  So what the fetches outside A produce is all present, unchanged.
-   Needs subgraph answers without duplicate object keys ([json_wf]) and a faulty run that does not
+   Needs subgraph answers without duplicate object keys ([json_wf]) and with RFC 8259 number tokens
+   ([answers_valid]), and a faulty run that does not
    fail as a whole (see c07_response_merge_order_refuted for how it can). *)
 Theorem c07_unaffected_equal :
   forall (answer : N -> bytes -> json * list json) (root_answer : N -> json * list json) (kind_of : N -> fkind)
          (F : N -> option fault) (A : N -> bool) (t : ftree),
     (forall id k, F id = Some k -> loud (kind_of id) k = true) ->
     (forall id rep, json_wf (fst (answer id rep)) = true) -> (forall id, json_wf (fst (root_answer id)) = true) ->
+    roots_are_objects root_answer -> answers_valid answer root_answer ->
     (forall id k, F id = Some k -> A id = true) -> closed_in A t ->
     fplan_wf kind_of t = true -> consistent answer root_answer kind_of t = true ->
     ls_hard (run answer root_answer kind_of F t) = false ->
@@ -65,50 +70,49 @@ Theorem c07_unaffected_equal :
 Proof. exact unaffected_lower_proof'. Qed.
 Print Assumptions c07_unaffected_equal.
 
-(* requests_subset, as stated in the property, is false of the loader: a nullable @requires field
-   whose provider failed (any non-transport failure) is sent as null to the dependent subgraph *)
+(* HISTORICAL: requests_subset was false of the loader before the repair: a nullable @requires field
+   whose provider failed (any non-transport failure) was sent as null to the dependent subgraph *)
 Theorem c07_requests_subset_refuted :
   exists answer root_answer kind_of t F,
     forallb (fetch_wf kind_of) (fetches_of t) = true /\
     (forall id k, F id = Some k -> loud (kind_of id) k = true) /\
-    requests_subset_b (ls_reqs (run answer root_answer kind_of no_faults t)) (ls_reqs (run answer root_answer kind_of F t)) = false.
+    requests_subset_b (ls_reqs (run_v0 answer root_answer kind_of no_faults t)) (ls_reqs (run_v0 answer root_answer kind_of F t)) = false.
 Proof. exact requests_subset_refuted_proof. Qed.
 Print Assumptions c07_requests_subset_refuted.
 
-(* ... and true when representation fields are non-null ([fplan_wf]): every request sent under the
-   faults is covered by a fault-free request of the same fetch (same datasource and operation text,
-   representations a subset) *)
-Theorem c07_requests_subset_partial :
+(* requests_subset: every request sent under the faults is covered by a fault-free request of the same
+   fetch (same datasource and operation text, representations a subset) *)
+Theorem c07_requests_subset :
   forall (answer : N -> bytes -> json * list json) (root_answer : N -> json * list json) (kind_of : N -> fkind)
          (F : N -> option fault) (t : ftree),
-    (forall id k, F id = Some k -> loud (kind_of id) k = true) ->
+    (forall id k, F id = Some k -> loud (kind_of id) k = true) -> roots_are_objects root_answer ->
     fplan_wf kind_of t = true -> consistent answer root_answer kind_of t = true ->
     requests_subset_b (ls_reqs (run answer root_answer kind_of no_faults t)) (ls_reqs (run answer root_answer kind_of F t)) = true.
-Proof. exact requests_subset_partial_proof. Qed.
-Print Assumptions c07_requests_subset_partial.
+Proof. exact requests_subset_proof. Qed.
+Print Assumptions c07_requests_subset.
 
-(* errors_nonempty, over the property's whole list of kinds, is false: a single-entity fetch
-   answered with `_entities: []` ("wrong entity count") is taken for "entity not found" *)
+(* HISTORICAL: before the repair a single-entity fetch answered with `_entities: []` ("wrong entity
+   count") was taken for "entity not found" and nothing was reported *)
 Theorem c07_errors_nonempty_refuted :
   exists answer root_answer kind_of t root F,
     forallb (fetch_wf kind_of) (fetches_of t) = true /\ root_wf root = true /\
-    (exists rq, In rq (ls_reqs (run answer root_answer kind_of no_faults t)) /\ F (rq_fetch rq) = Some FtCountLess) /\
-    let o := finish root (run answer root_answer kind_of F t) in
+    (exists rq, In rq (ls_reqs (run_v0 answer root_answer kind_of no_faults t)) /\ F (rq_fetch rq) = Some FtCountLess) /\
+    let o := finish root (run_v0 answer root_answer kind_of F t) in
     o_failed o = false /\ o_lerrors o = [] /\ r_errors (o_resolved o) = [].
 Proof. exact errors_nonempty_refuted_proof. Qed.
 Print Assumptions c07_errors_nonempty_refuted.
 
-(* ... and true for the loud kinds: if some request of the fault-free run is faulted, the response
-   carries at least one (loader) error *)
-Theorem c07_errors_nonempty_partial :
+(* errors_nonempty, for the whole list of failure kinds of the property ([loud]): if some request of the
+   fault-free run is faulted, the response carries at least one (loader) error *)
+Theorem c07_errors_nonempty :
   forall (answer : N -> bytes -> json * list json) (root_answer : N -> json * list json) (kind_of : N -> fkind)
          (F : N -> option fault) (t : ftree),
-    (forall id k, F id = Some k -> loud (kind_of id) k = true) ->
+    (forall id k, F id = Some k -> loud (kind_of id) k = true) -> roots_are_objects root_answer ->
     forallb (fetch_wf kind_of) (fetches_of t) = true ->
     (exists rq, In rq (ls_reqs (run answer root_answer kind_of no_faults t)) /\ F (rq_fetch rq) <> None) ->
     ls_errors (run answer root_answer kind_of F t) <> [].
-Proof. exact errors_nonempty_partial_proof'. Qed.
-Print Assumptions c07_errors_nonempty_partial.
+Proof. exact errors_nonempty_proof. Qed.
+Print Assumptions c07_errors_nonempty.
 
 (* valid_json (corollary of C02.resolve_refines_complete): whatever the loader state, the data member
    of the response is the marshalling of the C02 completion of the merged data (or `null`), the
@@ -122,12 +126,12 @@ Theorem c07_valid_json :
 Proof. exact valid_json_proof. Qed.
 Print Assumptions c07_valid_json.
 
-(* ... but a marshalled tree is RFC 8259 text only if its number tokens are: a subgraph body with
-   `NaN` (which astjson parses as a number) is rendered verbatim *)
+(* HISTORICAL: a marshalled tree is RFC 8259 text only if its number tokens are; before the repair a subgraph
+   body with `NaN` (which astjson parses as a number) was rendered verbatim.  (parsedResponse now rejects it.) *)
 Theorem c07_valid_json_refuted :
   exists root_answer t root F,
     root_wf root = true /\
-    let o := finish root (run (fun _ _ => (JNull, [])) root_answer (fun _ => FSingle) F t) in
+    let o := finish root (run_v0 (fun _ _ => (JNull, [])) root_answer (fun _ => FSingle) F t) in
     o_failed o = false /\ o_lerrors o = [] /\ r_errors (o_resolved o) = [] /\
     r_data (o_resolved o) = [123; 34; 100; 34; 58; 78; 97; 78; 125].
 Proof. exact valid_json_refuted_proof. Qed.
@@ -155,12 +159,15 @@ Print Assumptions c07_response_merge_order_refuted.
 Example c07_unaffected_hypotheses_satisfiable :
   let A := fun id => N.eqb id 2 in
   closed_in A p1_tree /\ (forall id rep, json_wf (fst (p1_answer id rep)) = true) /\ (forall id, json_wf (fst (p1_root_answer id)) = true) /\
+  roots_are_objects p1_root_answer /\ answers_valid p1_answer p1_root_answer /\
   ls_hard (p1_run (fault_at 2 FtNullData)) = false /\
   ls_data (p1_run (knock A)) = ls_data (p1_run (fault_at 2 FtNullData)) /\ ls_data (p1_run (knock A)) <> ls_data (p1_run no_faults).
 Proof.
   cbv zeta. split.
   - intros f Hf d Hd Ha. simpl in Hf. destruct Hf as [<-|[<-|[<-|[]]]]; simpl in Hd; try contradiction; destruct Hd as [<-|[]]; discriminate.
   - split; [intros id rep; unfold p1_answer; destruct id as [|[| |]]; reflexivity|]. split; [intros id; reflexivity|].
+    split; [intros id; eexists; reflexivity|].
+    split; [split; [intros id rep; unfold p1_answer; destruct id as [|[| |]]; split; reflexivity|intros id; split; reflexivity]|].
     vm_compute. repeat split. discriminate.
 Qed.
 
